@@ -57,6 +57,8 @@ def run(ctx):
   rule_invert(ctx)
   ctx.expect("R-C18-INVERT", 3, "affine Add and Double + BatchInverse inputs")
   rule_shift(ctx)
+  rule_intpow(ctx)
+  ctx.expect("R-C18-INTPOW", 7, "six documented differences + the 2-adic square root")
   ctx.expect("R-C18-SHIFT", 2, "TransformOrderLen and the comb offsets")
   from . import c02
   ctx.borrow(c02.rule_align, "R-C18-ALIGN")
@@ -624,8 +626,8 @@ def rule_shift(ctx):
           if not proved:
             for fc in e.facts:
               cl = canon_le(fc) if fc[0] == "cmp" and fc[1] in ("Lt", "LtE", "Gt", "GtE") else None
-              if cl is not None and (cl[0] + (c - const_of(c))).is_zero() and cl[1] + const_of(c) <= 0:
-                proved = True        # -(c - c0) <= b  with  b + c0 <= 0   =>   c >= 0
+              if cl is not None and (cl[0] + (c - const_of(c))).is_zero() and cl[1] - const_of(c) <= 0:
+                proved = True        # -(c - c0) <= b  =>  c >= c0 - b, which is >= 0 when b - c0 <= 0
           if not proved:
             # ceiling idiom: t * ((x + t - 1) // t) - x >= 0 by the floor lemma (x // t) * t >= x - t + 1
             from .c10 import apply_floor_lemma, provably_nonneg
@@ -643,3 +645,59 @@ def rule_shift(ctx):
 def const_of(p):
   c = p.t.get((), 0)
   return int(c)
+
+
+# ------------------------------------------------------------------ INTPOW (b ** e with e < 0 is a float: integer-only consumers raise)
+def rule_intpow(ctx):
+  """`b ** (x - c)` with an integer base is an int only for x >= c; below, it is a float and gmpy2.isqrt / `//` on big integers / shifts raise TypeError
+  or lose precision.  Where the path carries a lower bound g on x (a size gate `if x < g: return`), the gate must cover the constant: g >= c.
+  Exponents without any gate on the path are bounded by the property's own hypotheses and are not judged."""
+  R = "R-C18-INTPOW"
+  repo = ctx.repo
+  from .c12 import canon_le
+  n_sites = 0
+  for fn in repo.all_funcs(include_examples=False):
+    if fn.where.startswith("randomness_tests.") or fn.module.short.endswith("_test"):
+      continue
+    if not any(isinstance(x, ast.Pow) for x in ast.walk(fn.node)):
+      continue
+    w = sym.Walker(repo, fn)
+    try:
+      w.run()
+    except Incomplete:
+      continue
+    seen = {}
+    for e in w.events:
+      vals = [e.data.get(k_) for k_ in ("value", "rhs")] + (list(e.data.get("args", [])) if e.kind == "call" else [])
+      flat = []
+      for v in vals:
+        if isinstance(v, Seq):
+          flat += [x for x in v.items if isinstance(x, Poly)]
+        elif isinstance(v, Poly):
+          flat.append(v)
+      for v in flat:
+        for at in v.all_atoms():
+          if at.kind != "pow" or len(at.args) != 2 or (as_poly(at.args[0]).as_int() or 0) < 2:
+            continue
+          c = as_poly(at.args[1])
+          c0 = const_of(c)
+          tops = [(mono, co) for mono, co in c.t.items() if mono]
+          if c0 >= 0 or len(tops) != 1 or tops[0][1] != 1:
+            continue
+          x = c - c0
+          gates = []
+          for fc in e.facts:
+            cl = canon_le(fc) if fc[0] == "cmp" and fc[1] in ("Lt", "LtE", "Gt", "GtE") else None
+            if cl is not None and (cl[0] + x).is_zero():
+              gates.append(-cl[1])          # -x <= b   <=>   x >= -b
+          if not gates:
+            continue
+          key = (repr(x), -c0)
+          ok = max(gates) >= -c0
+          prev = seen.get(key)
+          seen[key] = (ok and (prev[0] if prev else True), max(gates) if prev is None else min(prev[1], max(gates)), getattr(e.node, "lineno", 0))
+    for (xt, cst), (ok, g, line) in sorted(seen.items()):
+      n_sites += 1
+      ctx.record(R, fn.where, "exponent %s - %d" % (xt[:60], cst), ok, "the size gate (>= %d) keeps the exponent non-negative" % g if ok else
+                 "the path only guarantees %s >= %d: for values in [%d, %d) the power is a float (2 ** -k) and the integer square root / floor division that consumes it raises TypeError" % (xt[:60], g, g, cst))
+  ctx.extra["gated_power_sites"] = n_sites
